@@ -101,7 +101,31 @@ func c07MemScenario(c *choice.Ctx, rep *report.R, variant int) {
 		add("evict(k1)+store(k1'')", func() { evict("k1"); store("k1", 4, false) })
 		add("get(k2)", func() { get("k2") })
 	}
+	finalWant := ""
+	switch variant {
+	case 4: // C08: a negative answer (SetIfAbsent) racing with a positive one for a key that is not cached yet
+		add("storeNX(k5 negative)", func() { store("k5", 1, true) })
+		add("store(k5 positive)", func() { store("k5", 2, false) })
+		add("get(k1)", func() { get("k1") })
+		finalWant = "k5#2#"
+	case 5: // C08: a negative answer arriving while the positive entry is live and being read / refreshed
+		add("storeNX(k1 negative)", func() { store("k1", 3, true) })
+		add("get(k1)", func() { get("k1") })
+		add("store(k2)", func() { store("k2", 2, false) })
+		finalWant = "k1#1#"
+	}
 	s := sched.Run(c, names, bodies)
+	if finalWant != "" {
+		// in every linearization the positive entry is what the cache holds afterwards (nothing was evicted)
+		k := strings.SplitN(finalWant, "#", 2)[0]
+		v, _, _ := mc.Get([]byte(k))
+		if v == nil || !strings.HasPrefix(string(v), finalWant) {
+			bad("negative-displaced-positive", fmt.Sprintf("after a positive store and a negative (set-if-absent) store of %s both completed, the cache holds %q, want the positive value %q...", k, []byte(v), finalWant), s)
+		}
+		if v != nil {
+			poolRelease(v)
+		}
+	}
 	if s.Deadlock {
 		bad("deadlock", "no thread can proceed", s)
 	}
@@ -132,11 +156,11 @@ func TestVerifC07Mem(t *testing.T) {
 	rep := report.New("C07/C20 memory cache under the controlled scheduler")
 	defer rep.Write()
 	bound := report.ParamInt("PREEMPTIONS", 2)
-	rep.Rule = fmt.Sprintf("E2: real internal/cache/mem.go with sync->vsync (LIFO always-reusing Pool, scheduled Mutex/RWMutex incl. TryRLock) and otter->votter (linearizable map whose removal and deletion-listener call are separate steps); 4 thread programs "+
-		"{get(k1) | store(k2);get(k2) | evict(k1)}, {get(k1) | store(k1') | storeNX(k3)}, {get(k1);get(k2) | evict(k1);store(k3) | evict(k2);storeNX(k4)}, {get(k1) | storeNX(k1) | evict(k1);store(k1'') | get(k2)}; all interleavings at lock/pool/backend operations with <=%d preemptions; "+
-		"oracle: Get(k) returns nil or a value ever stored under k, never poison; no double/foreign release, no write after release (ownership hook), no deadlock, no panic; states = distinct result vectors", bound)
+	rep.Rule = fmt.Sprintf("E2: real internal/cache/mem.go with sync->vsync (LIFO always-reusing Pool, scheduled Mutex/RWMutex incl. TryRLock) and otter->votter (linearizable map whose removal and deletion-listener call are separate steps); 6 thread programs "+
+		"{get(k1) | store(k2);get(k2) | evict(k1)}, {get(k1) | store(k1') | storeNX(k3)}, {get(k1);get(k2) | evict(k1);store(k3) | evict(k2);storeNX(k4)}, {get(k1) | storeNX(k1) | evict(k1);store(k1'') | get(k2)}, {storeNX(k5 negative) | store(k5 positive) | get(k1)}, {storeNX(k1 negative) | get(k1) | store(k2)}; all interleavings at lock/pool/backend operations with <=%d preemptions; "+
+		"oracle: Get(k) returns nil or a value ever stored under k, never poison; no double/foreign release, no write after release (ownership hook), no deadlock, no panic; after programs 5 and 6 the cache holds the positive value (a set-if-absent store never displaces it); states = distinct result vectors", bound)
 	sh, n := report.Shard()
-	for variant := 0; variant < 4; variant++ {
+	for variant := 0; variant < 6; variant++ {
 		variant := variant
 		if rp := report.ReplayFile(); rp != nil {
 			var x struct {
